@@ -83,6 +83,10 @@ func vpStubAddDate(t time.Time, y, m, d int) time.Time {
 	return time.Unix(sec, int64(t.Nanosecond())).In(t.Location())
 }
 
+func vpStubDateOf(t time.Time) (int, time.Month, int) {
+	return vpStubYear(t), vpStubMonth(t), vpStubDay(t)
+}
+func vpStubClock(t time.Time) (int, int, int) { return vpStubHour(t), vpStubMinute(t), vpStubSecond(t) }
 func vpStubYear(t time.Time) int          { return int(vpUF("year", t.Unix(), vpLocID(t.Location()))) }
 func vpStubMonth(t time.Time) time.Month  { return time.Month(vpUF("month", t.Unix(), vpLocID(t.Location()))) }
 func vpStubDay(t time.Time) int           { return int(vpUF("day", t.Unix(), vpLocID(t.Location()))) }
@@ -135,6 +139,8 @@ func vpTimeEnv() bool {
 	vpReplace("(time.Time).Minute", vpStubMinute)
 	vpReplace("(time.Time).Second", vpStubSecond)
 	vpReplace("(time.Time).Weekday", vpStubWeekday)
+	vpReplace("(time.Time).Date", vpStubDateOf)
+	vpReplace("(time.Time).Clock", vpStubClock)
 	vpReplace("(time.Time).Format", vpStubFormat)
 	vpReplace("time.Now", vpStubNow)
 	vpClock.last = 0
